@@ -356,6 +356,39 @@ void World::s_write(StreamState& s, std::string bytes, IoHandler hnd) {
         kill(c, ec, ec, "fault write_fail_delivered");
         return;
     }
+    if (Fault* f = fault_for(c, Fault::write_stall); c->write_stalled || (f && f->at >= before && f->at < before + len)) {
+        if (f && !c->write_stalled) { f->fired = true; log(Ev::fault, c->id, w.id, (int64_t)f->at, "peer stopped reading: this write and later ones stay pending, the broker falls silent"); }
+        bool first = !c->write_stalled;
+        c->write_stalled = true; c->stalled = true; c->broker_closed = true;
+        { auto& r = crec(c); if (!r.faulted) { r.faulted = true; r.t_fault = now(); r.seq_fault = next_seq(); } }
+        h.writes[w.id].delivered = 0;
+        c->p_write = Conn::PIo{std::move(hnd), tracked(s.ex), {}, w.id};
+        std::weak_ptr<Conn> wc = c; int wid = w.id;
+        if (first)   // a blocked TCP write does not hang for ever: the kernel gives up (modelled: 30 s)
+            after(30 * SEC, [this, wc] {
+                auto c = wc.lock();
+                if (!c || c->st == Conn::closed) return;
+                log(Ev::fault, c->id, -1, 0, "blocked write gives up: connection timed out");
+                c->write_stalled = false;
+                if (c->st == Conn::up) { kill(c, ae::timed_out, ae::timed_out, "write_stall timeout"); return; }
+                if (c->p_write) {   // the read side had died already; now the blocked write fails too
+                    int wid = c->p_write->write_id;
+                    if (wid >= 0) { auto& w = h.writes[wid]; w.done = true; w.result = ae::timed_out; w.seq_end = next_seq(); w.t_end = now(); }
+                    log(Ev::write_end, c->id, wid, 0, "timed_out");
+                    complete_io(c->p_write, ae::timed_out, 0);
+                }
+            });
+        auto slot = asio::get_associated_cancellation_slot(c->p_write->h);
+        if (slot.is_connected())
+            slot.assign([this, wc, wid](asio::cancellation_type_t) {
+                if (auto c = wc.lock(); c && c->p_write && c->p_write->write_id == wid) {
+                    auto& wr = h.writes[wid]; wr.done = true; wr.result = ae::operation_aborted; wr.seq_end = next_seq(); wr.t_end = now();
+                    log(Ev::write_end, c->id, wid, 0, "operation_aborted(cancel)");
+                    complete_io(c->p_write, ae::operation_aborted, 0);
+                }
+            });
+        return;
+    }
     c->c2b_sent += len;
     crec(c).c2b_bytes = c->c2b_sent;
     h.writes[w.id].delivered = len;
@@ -465,7 +498,7 @@ void World::kill(const ConnPtr& c, error_code read_ec, error_code write_ec, cons
     log(Ev::fault, c->id, -1, 0, std::string("connection dead: ") + cause);
     if (was_connecting && c->p_connect) { if (connects_in_progress > 0) --connects_in_progress; log(Ev::connect_end, c->id, -1, 0, ec_name(read_ec)); complete_ec(c->p_connect, read_ec); }
     try_complete_read(c);
-    if (c->p_write) {
+    if (c->p_write && !c->write_stalled) {   // a write blocked on a full send buffer is ended by close(), not by the read-side failure
         int wid = c->p_write->write_id;
         if (wid >= 0) { auto& w = h.writes[wid]; w.done = true; w.result = write_ec; w.seq_end = next_seq(); w.t_end = now(); }
         log(Ev::write_end, c->id, wid, 0, ec_name(write_ec));
